@@ -88,6 +88,21 @@ CLAIMS = {
         tech="static analysis: path enumeration + symbolic cursor simulation with difference constraints; class-hierarchy override check",
         ref="DESIGN.md section 2/C12",
     ),
+    "C13": dict(
+        cat="proof",
+        text="For each of the ~6,800 generated extractors with filter strings the regular-language inclusion "
+        "L(pattern, flags) <= Sigma* strings Sigma* is decided exactly (Thompson NFA of the pattern's syntax tree x Aho-Corasick "
+        "automaton of the strings, exhaustive search of the product for an accepting run that avoids every string; a witness string is "
+        "produced when one exists), case-insensitive extractors over the ASCII texts the lower-cased filter is consulted for; the filter "
+        "plumbing (own extractor list, partition truth table, same normalisation both sides, Automaton.iter under a non-emptiness guard, "
+        "only additions, every pair stored, reference order) is decided structurally. All obligations discharged => an extractor is "
+        "skipped only if its pattern cannot match, and the selected extractors run in reference order.",
+        note="Trusted: the NFA semantics in sa/rx.py for the sre subset the patterns use, re._parser, IGNORECASE fold tables from _sre / "
+        "re._casefix, pyahocorasick iter() reporting every occurrence. The pattern table is materialised by importing eyecite.tokenizers "
+        "from /repo (generated source); no pattern is matched against text.",
+        tech="static analysis: regex syntax tree -> NFA x Aho-Corasick product reachability (language inclusion with witness), truth-table evaluation of comprehension predicates, path-sensitive guard check",
+        ref="DESIGN.md section 2/C13",
+    ),
 }
 
 NA = {
@@ -103,6 +118,8 @@ ENGINES = [
     ("setorder", "sa/setorder.py", "classification of every use of a set-valued expression (order leak vs. order-insensitive)"),
     ("annot", "sa/annot.py", "cursor-loop model of annotate_citations: per-path symbolic state, order facts, callee summaries"),
     ("selftest", "sa/selftest.py + sa/mutants.py", "thorough tier: breaking/benign variants of /repo analysed in scratch copies (two-way validation of the checker)"),
+    ("rx", "sa/rx.py", "regex-AST engine: NFA over symbolic alphabet, Aho-Corasick product search with witness, group participation"),
+    ("materialize", "sa/materialize.py", "build step: dumps the generated extractor table (patterns, flags, strings, editions) from /repo"),
     ("hashrules", "sa/hashrules.py", "equality/hash discipline of citation classes (read-sets, class tag, identity cases)"),
 ]
 
